@@ -34,7 +34,7 @@ def run(rep):
         quick = rep.tier == "quick"
         # plus SELECT / set-operation statements of the verification grammar (FROM-first, WITH forms, every clause subset ...)
         ng = 2500 if quick else 40000
-        rcg, outg = verif.sh(["python3", os.path.join(verif.ROOT, "checks", "gen_sql_grammar.py"), str(rep.seed), str(ng), "--kinds", "select,setop", "--gaps"], timeout=1200)
+        rcg, outg = verif.sh(["python3", os.path.join(verif.ROOT, "checks", "gen_sql_grammar.py"), str(rep.seed), str(ng), "--kinds", "select,setop", "--gaps", "--hex"], timeout=1200)
         if rcg != 0:
             broken.append({"obligation": "harness:gen_sql_grammar", "detail": outg[-400:]})
         # plus long queries (a select list of several KB, so that a token crosses the lexer's buffer boundary at a position
@@ -50,7 +50,16 @@ def run(rep):
                     n += len(c) + 2
                 longq.append("SELECT " + ", ".join(cols) + ", " + tail + " FROM t")
         with open(sel, "a", encoding="utf-8", errors="surrogateescape") as f:
-            for l in outg.splitlines():
+            # (the grammar is read in --hex mode: text mode + splitlines() cut statements at a raw line break inside a string
+            # literal and the unterminated half was used as a query; the embed input is one query per line, so queries that
+            # contain a line break of any kind are left to the other runs)
+            for hl in outg.split("\n"):
+                try:
+                    l = bytes.fromhex(hl.strip()).decode("utf-8", "surrogateescape")
+                except ValueError:
+                    continue
+                if not l or len(l.splitlines()) != 1:
+                    continue
                 if re.match(r"(?i)^\s*(select|with|from|\()", l) and not re.search(r"(?i)\b(format|settings|into\s+outfile)\b", l):
                     f.write(l + "\n")
             for l in longq:
